@@ -33,9 +33,11 @@ class FakeAsyncZeroconf:
         self.zeroconf = FakeZeroconfCore(FakeAsyncZeroconf.run)
         self.closed = 0
         FakeAsyncZeroconf.instances.append(self)
+        FakeAsyncZeroconf.run.event(["zc_new"])
 
     async def async_close(self) -> None:
         self.closed += 1
+        FakeAsyncZeroconf.run.event(["zc_close"])
 
 
 class ReconRun:
@@ -179,10 +181,16 @@ class ReconRun:
         w = self.w
         # a disconnect request of the device on a live session initiates a graceful end
         row = ["graceful"] if any(m.get("k") == "discreq" for m in ms) else None
+        # a login answer that flags the password invalid: the device's verdict on the attempt in flight
+        verdict = any(m.get("k") == "connect" and m.get("invalid") for m in ms)
+        if verdict:
+            row = ["verdict_bad"]
 
         def fn():
             tr = w.tr
-            if tr is None or not tr.can_receive() or (row is not None and not self._session_live()):
+            if tr is None or not tr.can_receive() or (row == ["graceful"] and not self._session_live()):
+                return False
+            if verdict and (self._session_live() or not self._handshaking()):
                 return False
             return w.send_msgs([device_message(m) for m in ms])
 
@@ -198,8 +206,19 @@ class ReconRun:
 
         self.inject(fn, ["graceful"])
 
+    def _handshaking(self) -> bool:
+        """The attempt in flight has its transport and is waiting for the device's hello / login answers."""
+        c = self.client._connection
+        return bool(c is not None and not c.is_connected and c.connection_state.name == "HANDSHAKE_COMPLETE")
+
     def ev_junk(self):
-        self.inject(lambda: self.w.chunk(b"\x01\x00\x00"))  # a device that wants encryption
+        # a device that wants encryption: its verdict on the attempt in flight
+        def fn():
+            if not self._handshaking():
+                return False
+            return self.w.chunk(b"\x01\x00\x00")
+
+        self.inject(fn, ["verdict_bad"])
 
     def ev_eof(self):
         self.inject(self.w.eof)
@@ -257,7 +276,7 @@ def run_schedule(cfg: dict, schedule: list, seed: int = 0) -> dict:
 
 # ------------------------------------------------------------------ stories
 HELLO = [HELLO_OK, CONNECT_OK]
-OUTCOMES = ["resolve_err", "tcp_err", "hs_err", "auth_err", "enc_err", "ok"]
+OUTCOMES = ["resolve_err", "tcp_err", "hs_err", "auth_err", "enc_err", "auth_err_eof", "enc_err_eof", "ok"]
 
 
 def attempt_steps(outcome: str) -> list:
@@ -271,6 +290,10 @@ def attempt_steps(outcome: str) -> list:
         return pre + [("ev", "eof")]
     if outcome == "auth_err":
         return pre + [("ev", "chunk", [HELLO_OK, CONNECT_BAD])]
+    if outcome == "auth_err_eof":  # the device's verdict and the close of the socket in the same loop iteration
+        return pre + [("ev", "chunk", [HELLO_OK, CONNECT_BAD]), ("ev", "eof")]
+    if outcome == "enc_err_eof":
+        return pre + [("ev", "junk"), ("ev", "eof")]
     if outcome == "enc_err":
         return pre + [("ev", "junk")]
     return pre + [("ev", "chunk", HELLO)]
@@ -323,7 +346,7 @@ def systematic() -> list:
             sch += attempt_steps(kind) + [("idle",), ("tick",)]
         sch += attempt_steps("ok") + [("idle",), ("ev", "eof"), ("idle",)] + attempt_steps(kind) + [("idle",), ("tick",)] + attempt_steps("ok") + [("idle",), ("ev", "stop"), ("idle",)]
         out.append(sch)
-    for kind in ("auth_err", "enc_err"):
+    for kind in ("auth_err", "enc_err", "auth_err_eof", "enc_err_eof"):
         out.append([("ev", "start"), ("idle",)] + attempt_steps(kind) + [("idle",), ("tick",)] + attempt_steps("tcp_err") + [("idle",), ("tick",)] + attempt_steps("ok") + [("idle",)])
     # a long outage: far more consecutive failures than any exponent the back-off formula was tried with
     # (1.8^n leaves the range of a float at n = 1208): the manager keeps retrying every 60 s and recovers
